@@ -36,7 +36,7 @@ func c06Cfg(c *core.Ctx, idx int) wl.Cfg {
 	cfg := wl.Cfg{}
 	cfg.Mode = mon.Mode(1 + idx%2)
 	cfg.Queue = []int{1, 2, 4, 8, 64}[(idx/2)%5]
-	cfg.Closer = 1 + (idx/10)%2
+	cfg.Closer = 1 + (idx/10)%3
 	cfg.Writers = 1 + rng.Intn(3)
 	cfg.PerWriter = 1 + rng.Intn(4)
 	cfg.Sizes = []int{1, 16, 17, 100, 1024, 1025, 4097}
@@ -97,6 +97,9 @@ func runC06(c *core.Ctx) {
 		if !c.Mine(idx) {
 			continue
 		}
+		if c.Enough() {
+			break
+		}
 		id := fmt.Sprintf("t%d", idx)
 		if !c.CaseQuiet(id) {
 			continue
@@ -152,7 +155,7 @@ func judgeC06(c *core.Ctx, id string, h *wl.History) {
 	}
 	c.Count("pre_close_payloads", int64(pre))
 	c.Count("mode_"+h.Cfg.Mode.String(), 1)
-	c.Count("closer_"+[]string{"", "user-goroutine", "read-loop-handler"}[h.Cfg.Closer], 1)
+	c.Count("closer_"+[]string{"", "user-goroutine", "read-loop-handler", "parent-context-then-close"}[h.Cfg.Closer], 1)
 	// did the closer overlap a live sender?
 	overlapped := false
 	after := false
